@@ -2047,6 +2047,14 @@ class MatrixBase:
         self._ba, self._bb, self._bc = row_b
         self._ca, self._cb, self._cc = row_c
 
+    def _new_copy(self) -> Self:
+        """Duplicate into a new object of the same class, even if that is frozen."""
+        return type(self)._from_raw(
+            self._aa, self._ab, self._ac,
+            self._ba, self._bb, self._bc,
+            self._ca, self._cb, self._cc,
+        )
+
     def _vec_rot(self, vec: VecBase) -> None:
         """Rotate a vector by our value, inplace (even if frozen)."""
         x = vec.x
@@ -2058,11 +2066,11 @@ class MatrixBase:
 
     def __matmul__(self, other: 'MatrixBase | AngleBase') -> Self:
         if isinstance(other, MatrixBase):
-            mat = self.copy()
+            mat = self._new_copy()
             mat._mat_mul(other)
             return mat
         elif isinstance(other, AngleBase):
-            mat = self.copy()
+            mat = self._new_copy()
             mat._mat_mul(Py_Matrix.from_angle(other))
             return mat
         else:
@@ -2096,7 +2104,7 @@ class MatrixBase:
             cls = type(other)
             return mat._to_angle(cls.__new__(cls))
         elif isinstance(other, MatrixBase):
-            mat = other.copy()
+            mat = other._new_copy()
             mat._mat_mul(self)
             return mat
         else:
